@@ -1371,3 +1371,9 @@ Proof.
   apply in_map_iff in He as ([i [e0 [p t]]] & <- & _). cbn [le_unknown le_attrs].
   rewrite filter_In, negb_true_iff, mem_str_false_iff. tauto.
 Qed.
+
+(* in_library_check reads the header's library list of the schema and the entry's own value: two schemas with
+   the same header library give the same verdict, whatever else they contain *)
+Lemma in_library_depends_on_header_only L1 L2 e a :
+  l_library L1 = l_library L2 -> in_library_check L1 e a = in_library_check L2 e a.
+Proof. intros H. unfold in_library_check. rewrite H. reflexivity. Qed.
